@@ -236,13 +236,19 @@ impl SomeExpressionEvaluator {
   ///
   pub fn evaluate(&mut self, scope: &Scope, evaluator: &Evaluator) -> Value {
     let mut result = false;
+    let mut undetermined = false;
     self.feel_iterator.run(|ctx| {
       scope.push(ctx.clone());
       if let Value::Boolean(value) = evaluator(scope) {
         result = result || value;
+      } else {
+        undetermined = true;
       }
       scope.pop();
     });
+    if !result && undetermined {
+      return Value::Null(None);
+    }
     Value::Boolean(result)
   }
 }
@@ -270,13 +276,19 @@ impl EveryExpressionEvaluator {
   ///
   pub fn evaluate(&mut self, scope: &Scope, evaluator: &Evaluator) -> Value {
     let mut result = true;
+    let mut undetermined = false;
     self.feel_iterator.run(|ctx| {
       scope.push(ctx.clone());
       if let Value::Boolean(value) = evaluator(scope) {
         result = result && value;
+      } else {
+        undetermined = true;
       }
       scope.pop();
     });
+    if result && undetermined {
+      return Value::Null(None);
+    }
     Value::Boolean(result)
   }
 }
